@@ -443,3 +443,62 @@ Proof.
   rewrite <- Es in H |- *. rewrite read_operator_sksp, E, sksp_idem. exact H.
 Qed.
 
+
+Lemma rcp_ok_mono n n' M s k s' : rcp_ok n M s k s' -> (n <= n')%nat -> rcp_ok n' M s k s'.
+Proof. intros H Hn f Hf. apply H. lia. Qed.
+Lemma rv_ok_mono n n' s k s' : rv_ok n s k s' -> (n <= n')%nat -> rv_ok n' s k s'.
+Proof. intros H Hn f Hf. apply H. lia. Qed.
+
+(* ---- one lemma per branch of read_value ---- *)
+Lemma rv_paren f s r0 t s1 s2 :
+  sksp s = 40 :: r0 -> rcp f LEX_OR_AND r0 = Ok (Some t, s1) -> sksp s1 = 41 :: s2 ->
+  rv (S f) s = Ok (Some t, s2).
+Proof.
+  intros Hs Hr H2. cbn [read_value]. rewrite Hs. change (40 =? 40) with true. cbv beta iota zeta.
+  rewrite Hr. cbn [bind]. rewrite H2. reflexivity.
+Qed.
+
+Lemma rv_minus_num f s r0 :
+  sksp s = 45 :: r0 -> is_numeric r0 = true ->
+  rv (S f) s = let '(num, s1) := get_int 0 r0 in Ok (Some (TConstInt (-1 * num)), s1).
+Proof.
+  intros Hs Hn. cbn [read_value]. rewrite Hs. change (45 =? 40) with false. change (45 =? 45) with true.
+  cbv beta iota zeta. rewrite Hn. reflexivity.
+Qed.
+
+Lemma rv_minus_val f s r0 k s1 :
+  sksp s = 45 :: r0 -> is_numeric r0 = false -> rv f r0 = Ok (Some k, s1) ->
+  rv (S f) s = Ok (Some (TCalc 42 0 (TConstInt (-1)) k), s1).
+Proof.
+  intros Hs Hn Hv. cbn [read_value]. rewrite Hs. change (45 =? 40) with false. change (45 =? 45) with true.
+  cbv beta iota zeta. rewrite Hn, Hv. reflexivity.
+Qed.
+
+Lemma rv_num f s c r0 :
+  sksp s = c :: r0 -> is_digit c || (c =? 36) = true ->
+  rv (S f) s = let '(num, s1) := get_int 0 (c :: r0) in Ok (Some (TConstInt num), s1).
+Proof.
+  intros Hs Hc. cbn [read_value]. rewrite Hs.
+  replace (c =? 40) with false by (unfold is_digit in Hc; lia).
+  replace (c =? 45) with false by (unfold is_digit in Hc; lia).
+  cbv beta iota zeta. rewrite Hc. reflexivity.
+Qed.
+
+Lemma rv_str f s r0 :
+  sksp s = 123 :: r0 ->
+  rv (S f) s = let '(str, s1) := get_token_nest 123 125 (123 :: r0) in Ok (Some (TConstStr str), s1).
+Proof. intros Hs. cbn [read_value]. rewrite Hs. reflexivity. Qed.
+
+Lemma rv_word f s c r0 x s1 :
+  sksp s = c :: r0 -> is_letter c = true -> get_word (c :: r0) = (x, s1) ->
+  eq_char s1 40 = false -> prefixb [43; 43] s1 = false -> prefixb [45; 45] s1 = false ->
+  rv (S f) s = Ok (Some (TGetVar x), s1).
+Proof.
+  intros Hs Hc Hw H1 H2 H3. cbn [read_value]. rewrite Hs.
+  unfold is_letter, in_range in Hc.
+  replace (c =? 40) with false by lia. replace (c =? 45) with false by lia.
+  replace (is_digit c || (c =? 36)) with false by (unfold is_digit; lia).
+  replace (c =? 33) with false by lia. replace (c =? 123) with false by lia. replace (c =? 34) with false by lia.
+  replace (is_upper c || is_lower c || (c =? 95) || (c =? 35)) with true by (unfold is_upper, is_lower; lia).
+  cbv beta iota zeta. rewrite Hw. rewrite H1, H2, H3. reflexivity.
+Qed.
